@@ -70,7 +70,7 @@ func (v DenseInt64Vector) APPEND(w DenseInt64Vector) DenseInt64Vector {
   return append(v, w...)
 }
 func (v DenseInt64Vector) ToDenseInt64Matrix(n, m int) *DenseInt64Matrix {
-  if n*m != len(v) {
+  if n < 0 || m < 0 || n*m != len(v) {
     panic("Matrix dimension does not fit input vector!")
   }
   matrix := DenseInt64Matrix{}
